@@ -34,7 +34,9 @@ var Check = &ev.Check{
 	Run:     run,
 	Finish:  finish,
 	Workers: func(string) int { return 16 },
-	Budget:  func(t string) time.Duration { return map[string]time.Duration{"quick": 4 * time.Minute, "thorough": 25 * time.Minute}[t] },
+	Budget: func(t string) time.Duration {
+		return map[string]time.Duration{"quick": 4 * time.Minute, "thorough": 25 * time.Minute}[t]
+	},
 	Assumptions: []string{
 		"cross-process determinism is covered through the owned sources of nondeterminism (map order); there is no other clock/random/env input on the path (scanned by overlaygen: all map ranges rewritten, none left)",
 		"the range rewrite offers a generating set of orders, not all n!, for maps with more than 4 keys",
@@ -144,18 +146,18 @@ func programs() []program {
 		"root.thrift": "include \"./l.thrift\"\ninclude \"./r.thrift\"\n" +
 			"typedef l.LT A\ntypedef r.RT B\ntypedef A AA\nstruct Z { 1: optional A a; 2: optional B b; 3: optional AA aa; 4: optional list<l.LT> ls }\n" +
 			"enum E1 { X, Y }\nenum E2 { X, Y }\nunion U1 { 1: E1 a; 2: E2 b }\nconst E1 CE = E1.Y\nconst l.LT CL = l.DEF\n",
-		"l.thrift":    "include \"./shared.thrift\"\ntypedef shared.S LT\nconst LT DEF = {\"v\": 1}\n",
-		"r.thrift":    "include \"./shared.thrift\"\ntypedef shared.S RT\n",
+		"l.thrift":      "include \"./shared.thrift\"\ntypedef shared.S LT\nconst LT DEF = {\"v\": 1}\n",
+		"r.thrift":      "include \"./shared.thrift\"\ntypedef shared.S RT\n",
 		"shared.thrift": "struct S { 1: optional i32 v }\n",
 	}})
 	// 6. one shared include whose package name collides with a standard import in
 	// one including module and not in another
 	ps = append(ps, program{Name: "shared-include-alias", Root: "root.thrift", Small: true, Files: map[string]string{
-		"root.thrift":   "include \"./a.thrift\"\ninclude \"./b.thrift\"\ninclude \"./c.thrift\"\nstruct R { 1: optional a.A x; 2: optional b.B y; 3: optional c.C z }\n",
-		"a.thrift":      "include \"./errors.thrift\"\ninclude \"./strings.thrift\"\nstruct A { 1: required errors.T t; 2: required string s; 3: optional strings.S q }\n",
-		"b.thrift":      "include \"./errors.thrift\"\ntypedef errors.T B\n",
-		"c.thrift":      "include \"./strings.thrift\"\ninclude \"./errors.thrift\"\nstruct C { 1: optional strings.S s; 2: optional errors.T t }\nconst errors.T CT = {\"m\": \"x\"}\n",
-		"errors.thrift": "struct T { 1: optional string m }\n",
+		"root.thrift":    "include \"./a.thrift\"\ninclude \"./b.thrift\"\ninclude \"./c.thrift\"\nstruct R { 1: optional a.A x; 2: optional b.B y; 3: optional c.C z }\n",
+		"a.thrift":       "include \"./errors.thrift\"\ninclude \"./strings.thrift\"\nstruct A { 1: required errors.T t; 2: required string s; 3: optional strings.S q }\n",
+		"b.thrift":       "include \"./errors.thrift\"\ntypedef errors.T B\n",
+		"c.thrift":       "include \"./strings.thrift\"\ninclude \"./errors.thrift\"\nstruct C { 1: optional strings.S s; 2: optional errors.T t }\nconst errors.T CT = {\"m\": \"x\"}\n",
+		"errors.thrift":  "struct T { 1: optional string m }\n",
 		"strings.thrift": "struct S { 1: optional string v }\nenum E { A }\n",
 	}})
 	// 7. inheritance chains whose upper links are only reachable through other files' includes
